@@ -6395,6 +6395,10 @@ fintFile(FileName fname)
 	result = fintExecMainUnit();
 
 	/* !! We should close the archive files */
+	/* The unit was opened for reading (libNew above is told otherwise only
+	 * to avoid creating a symbol table level): it must not be closed as a
+	 * library being written, which rewrites the header. */
+	lib->rdOnly = true;
 	libClose(lib);
 
 	fintFini();
